@@ -291,6 +291,10 @@ func runScenario(run *evid.Run, reg ociregistry.Interface, repo string, s *scena
 	if string(desc.Digest) != trueDigest || desc.Size != int64(len(s.Content)) {
 		bad("commit-descriptor", fmt.Sprintf("Commit returned %s/%d, content is %s/%d", desc.Digest, desc.Size, trueDigest, len(s.Content)))
 	}
+	if (len(s.Content)+len(s.Parts)+s.Hint)%2 == 0 {
+		// the Cancel of a `defer w.Cancel()`: a no-op after a commit, says the interface
+		log("Cancel after the commit", w.Cancel())
+	}
 	data, gerr := readBlob(reg, repo, trueDigest)
 	log("GetBlob", gerr)
 	if gerr != nil {
